@@ -126,3 +126,47 @@ Example ex_one_change :
   let b := fresh (mkT [10;20;30]%Z [1;2;3;4]%Z [[5;0;0;7];[0;0;0;0];[0;3;0;0]]%Z (Some [I 1; I 2; I 3]%Z) None 1%Z) in
   coherent b /\ eq_impl ex_csc b = false.
 Proof. split; [apply coherentb_coherent; vm_compute; reflexivity|vm_compute; reflexivity]. Qed.
+
+(* ---- translator tie: Gen/EqualityGen.v is regenerated from biom/table.py by tools/py2v_eq on
+   every run (over the vocabulary of Gen/EqPrelude.v); each generated method returns
+   (value, receiver afterwards, argument afterwards) and equals the hand-written model above for
+   ALL inputs.  PForeign = an argument that is not a table. *)
+From BiomV Require Import Gen.EqPrelude Gen.EqualityGen Proofs.GenBridgeEqualityProofs.
+
+(* _data_equality: shape, dtype, count_nonzero (sorting both operands in place), tocsr, cells *)
+Theorem data_equality_is_source : forall a b,
+  gen_data_equality a (tb_data b) =
+  ROk (let '(v, ra, rb) := data_eq a b in (v, with_rep a ra, mkM rb (dtype b))).
+Proof. exact data_equality_bridge. Qed.
+Print Assumptions data_equality_is_source.
+
+(* __eq__: the class test, then type, observation ids, sample ids, observation metadata, sample
+   metadata, data - verdict and both operands afterwards are those of eq_step *)
+Theorem eq_is_source : forall a b,
+  gen_eq a (PTable b) = ROk (let '(v, a', b') := eq_step a b in (v, a', PTable b')).
+Proof. exact eq_bridge. Qed.
+Print Assumptions eq_is_source.
+Theorem eq_foreign_is_source : forall a, gen_eq a PForeign = ROk (false, a, PForeign).
+Proof. exact eq_foreign_bridge. Qed.
+Print Assumptions eq_foreign_is_source.
+
+(* descriptive_equality: the same tests in the same order, each with its own answer
+   (0 equal, 1 type, 2 / 3 ids, 4 / 5 metadata, 6 data, 7 class), same effects as == *)
+Theorem descriptive_equality_is_source : forall a b,
+  gen_descriptive_equality a (PTable b) =
+  ROk (desc_impl a b, fst (eq_after a b), PTable (snd (eq_after a b))).
+Proof. exact desc_bridge. Qed.
+Print Assumptions descriptive_equality_is_source.
+Theorem descriptive_equality_foreign_is_source : forall a,
+  gen_descriptive_equality a PForeign = ROk (MSG_CLASS, a, PForeign).
+Proof. exact desc_foreign_bridge. Qed.
+Print Assumptions descriptive_equality_foreign_is_source.
+
+(* __ne__: the negation of ==, same effects *)
+Theorem ne_is_source : forall a b,
+  gen_ne a (PTable b) = ROk (ne_impl a b, fst (eq_after a b), PTable (snd (eq_after a b))).
+Proof. exact ne_bridge. Qed.
+Print Assumptions ne_is_source.
+Theorem ne_foreign_is_source : forall a, gen_ne a PForeign = ROk (true, a, PForeign).
+Proof. exact ne_foreign_bridge. Qed.
+Print Assumptions ne_foreign_is_source.
